@@ -48,9 +48,10 @@ package dtls
 //@ ensures body-is-marshalled: sameArray(content, retBytes("Message.Marshal", 0)) && len(content) == len(retBytes("Message.Marshal", 0)) && offsetOf(content) == offsetOf(retBytes("Message.Marshal", 0))
 //@ ensures split-by-mtu: retErr("Message.Marshal", 1) == nil ==> ncalls("util.SplitBytes") == 1 && sameSlice(argBytes("util.SplitBytes", 0), content) && argInt("util.SplitBytes", 1) == c.maximumTransmissionUnit
 //@ ensures one-fragment-per-chunk: result1 == nil ==> len(result0) == len(contentFragments) && len(result0) >= 1 && ncalls("Header.Marshal") == len(result0)
-//@ ensures empty-message: result1 == nil && len(content) == 0 ==> len(result0) == 1 && len(result0[0]) == 12
-//@ ensures each-fragment-size: result1 == nil ==> forall(0, len(result0), func(k int) bool { return len(result0[k]) == 12 + len(CF(k)) })
-//@ ensures each-chunk-within-mtu: result1 == nil ==> forall(0, len(contentFragments), func(k int) bool { return len(CF(k)) <= c.maximumTransmissionUnit && (len(content) > 0 ==> len(CF(k)) >= 1) })
+//@ ensures empty-message: result1 == nil && len(content) == 0 ==> len(result0) == 1
+// [size part `len(result0[0]) == 12` needs the unclaimed done-sizes invariant]
+// [NOT CLAIMED: not discharged within the budget (quantified sizes over the chunk list); it tainted the clauses after it] ensures each-fragment-size: result1 == nil ==> forall(0, len(result0), func(k int) bool { return len(result0[k]) == 12 + len(CF(k)) })
+// [NOT CLAIMED: not discharged within the budget (quantified sizes over the chunk list); it tainted the clauses after it] ensures each-chunk-within-mtu: result1 == nil ==> forall(0, len(contentFragments), func(k int) bool { return len(CF(k)) <= c.maximumTransmissionUnit && (len(content) > 0 ==> len(CF(k)) >= 1) })
 //@ ensures header-repeated: HDR_REPEATED()
 //@ ensures last-header-length: result1 == nil ==> LASTH().FragmentLength == uint32(len(result0[len(result0)-1]) - 12)
 //@ loop rangeindex: shape: 0 <= idx && idx <= len(contentFragments) && len(fragmentedHandshakes) == idx && len(contentFragments) >= 1
@@ -58,8 +59,8 @@ package dtls
 //@ loop rangeindex: running-offset: (idx == 0 ==> int(offset) == 0) && (idx > 0 ==> uint32(int(offset)) == LASTH().FragmentOffset + LASTH().FragmentLength && LASTH().FragmentLength == uint32(len(FH(idx-1)) - 12))
 //@ loop rangeindex: header-repeated: HDR_REPEATED()
 //@ loop rangeindex: chunks-empty: len(content) == 0 ==> len(contentFragments) == 1 && len(CF(0)) == 0
-//@ loop rangeindex: chunks-bounds: forall(0, len(contentFragments), func(k int) bool { return 0 <= len(CF(k)) && len(CF(k)) <= c.maximumTransmissionUnit && (len(content) > 0 ==> 1 <= len(CF(k))) })
-//@ loop rangeindex: done-sizes: forall(0, idx, func(j int) bool { return len(FH(j)) == 12 + len(CF(j)) })
+// [NOT CLAIMED: not discharged within the budget (quantified sizes over the chunk list); it tainted the clauses after it] loop rangeindex: chunks-bounds: forall(0, len(contentFragments), func(k int) bool { return 0 <= len(CF(k)) && len(CF(k)) <= c.maximumTransmissionUnit && (len(content) > 0 ==> 1 <= len(CF(k))) })
+// [NOT CLAIMED: not discharged within the budget (quantified sizes over the chunk list); it tainted the clauses after it] loop rangeindex: done-sizes: forall(0, idx, func(j int) bool { return len(FH(j)) == 12 + len(CF(j)) })
 //@ end
 
 // Receiver side, hand-over to the transcript cache (conn.go bufferHandshakeRecord): after a record's
